@@ -85,5 +85,40 @@ def roll (xs : List Rat) (s : Nat) : List Rat := tab xs.length fun j => ringVal 
 def lineCells (f : Fld) (ax : Nat) (i : List Nat) (c : Nat) : List (Rat × Bool) :=
   tab (f.mesh.nAt ax) fun j => ((f.data.line ax i j).getD c 0, f.valid.line ax i j)
 
+/-! ## spec layer: the index-level description of "each maximal run is differentiated on its own" -/
+
+/-- sign a reversal gives the stencil of order `o` -/
+def revSign (o : Nat) : Rat := if o = 1 then -1 else 1
+
+/-- number of consecutive valid cells immediately before position `i` -/
+def runBefore (v : Nat → Bool) : Nat → Nat
+  | 0 => 0
+  | i + 1 => if v i then runBefore v i + 1 else 0
+
+/-- number of consecutive valid cells from position `i` on (at most `fuel` of them) -/
+def runFromAux (v : Nat → Bool) (i : Nat) : Nat → Nat
+  | 0 => 0
+  | fuel + 1 => if v i then runFromAux v (i + 1) fuel + 1 else 0
+
+/-- number of consecutive valid cells from position `i` on, in a line of length `L` -/
+def runFrom (v : Nat → Bool) (L i : Nat) : Nat := runFromAux v i (L - i)
+
+/-- SPEC of the derivative of an open line with values `x`, validity `v`, length `L` at position
+`i`: an invalid cell gives 0; a valid cell gives the run stencil of its own maximal run of valid
+cells (which starts `runBefore v i` cells before `i` and has `runBefore v i + runFrom v L i`
+cells) at its position inside that run — nothing outside the run is read -/
+def diffSpec (order : Nat) (h : Rat) (L : Nat) (x : Nat → Rat) (v : Nat → Bool) (i : Nat) : Rat :=
+  if v i then
+    dAt order h (runBefore v i + runFrom v L i) (fun k => x (i - runBefore v i + k)) (runBefore v i)
+  else 0
+
+/-- is axis `ax` a periodic direction (its name occurs in `mesh.bc`), as `Field.diff` decides it -/
+def periodicAx (f : Fld) (ax : Nat) : Bool :=
+  f.mesh.bc.toList.any fun ch => String.singleton ch == f.mesh.region.dims.getD ax ""
+
+/-- values and validity of a line of cells as total functions (outside the line: `0`, invalid) -/
+def valOf (cells : List (Rat × Bool)) (j : Nat) : Rat := (cells.getD j (0, false)).1
+def okOf (cells : List (Rat × Bool)) (j : Nat) : Bool := (cells.getD j (0, false)).2
+
 
 end DFV.C04
